@@ -168,6 +168,8 @@ def finish(E: Engine):
             g = toz(E.truth(E.evs(cond, State(dict(entry.env), entry.heap, []))))
             E.obl.append(Obligation("must-raise:%s%s" % (exn, tag), list(x.st.pc), z3.Not(g), x.line, "raises"))
         res = x.value
+        if getattr(c, "ctor_result", None):
+            res = entry.env[c.ctor_result]          # tuple-modelled object: the constructed object is this parameter
         if c.result_alias:
             want = param_value(E, c.result_alias)
             ok = isinstance(res, Ref) and isinstance(want, Ref) and res.id == want.id
@@ -180,6 +182,10 @@ def finish(E: Engine):
             try:
                 g = toz(E.truth(E.evs(e, scope)))
             except OutsideSubset as ex:
+                if res is None and c.returns and parse_type(c.returns)[0] != "none":
+                    # the function returns None on this path although the contract promises a value: the path must be infeasible
+                    E.obl.append(Obligation("returns-value%s" % tag, list(x.st.pc), z3.BoolVal(False), x.line, "post"))
+                    break
                 raise ContractStale("ensures %r: %s" % (e, ex))
             E.obl.append(Obligation("post:%d%s" % (i, tag), list(x.st.pc), g, x.line, "post"))
         for hid, p in entry_ids.items():
@@ -205,7 +211,7 @@ def all_axioms(E: Engine, proven_lemmas, internal_for=None):
         if key not in E.spec_inst:
             ax.extend(a)
     from .engine import trunc_axioms
-    ax.extend(trunc_axioms())
+    ax.extend(trunc_axioms())          # filtered per obligation in check(): only kept when `trunc` occurs
     ma = math_axioms()
     for m in sorted(set(getattr(E.c, "uses_math", []) or [])):      # opt-in: sqrt(a)>=0, sqrt(a)^2=a, exp>0
         ax.extend(ma.get(m, []))
@@ -256,6 +262,10 @@ def _solve(hyps, goal, timeout_ms, ematch_only=False):
         if os.environ.get("VERIF_AC", "1") == "0":
             s.set("auto_config", False)
         s.set("smt.mbqi", False)
+        # keep hypothesis equations such as `idx == off + k` as they are: solving them for the loop counter rewrites
+        # `k + 1` and the goal-directed triggers S(.., k+1) stop matching (measured by the C04 contract work)
+        if os.environ.get("VERIF_SOLVE_EQS", "0") == "0":
+            s.set("smt.solve_eqs", False)
     for h in hyps:
         s.add(h)
     s.add(z3.Not(goal))
@@ -268,6 +278,13 @@ def check(hyps, goal, timeout_ms, want_model=False, axioms=()):
     run that had every hypothesis."""
     t0 = time.time()
     axioms = list(axioms)
+    from .engine import trunc_axioms
+    tids = {a.get_id() for a in trunc_axioms()}
+    used = set()
+    for h in list(hyps) + [goal] + [a for a in axioms if a.get_id() not in tids]:
+        _syms(h, used)
+    if "trunc" not in used:
+        axioms = [a for a in axioms if a.get_id() not in tids]
     full = axioms + list(hyps)
     short = max(1000, min(4000, timeout_ms // 4))
     s, r = _solve(full, goal, short, ematch_only=True)
@@ -363,8 +380,11 @@ def verify(key: str, second_opinion=False, timeout_ms=None):
                 if ok:
                     proven.add(lm["name"])
         ax = all_axioms(E, proven)
+        budget = tmo
         for ob in E.obl:
-            r, ms, s, model = check(ob.hyps, ob.goal, tmo, want_model=True, axioms=ax)
+            r, ms, s, model = check(ob.hyps, ob.goal, budget, want_model=True, axioms=ax)
+            if r == "unknown":
+                budget = min(budget, 4000)      # one undecided obligation: do not spend the full portfolio on every sibling
             o = {"name": ob.name, "result": r, "ms": ms, "kind": ob.kind, "line": ob.line, "how": check.last_how}
             if r == "sat" and model is not None:
                 o["model"] = model_summary(E, model)
